@@ -123,4 +123,194 @@ def spec_c20(tier):
     }
 
 
-SPECS = {"C02": spec_c02, "C05": spec_c05, "C20": spec_c20}
+REAL_E2 = ["click command run_manager_from_cli (in-process, standalone mode)", "_run_manager_from_cli_worker", "validate.py",
+           "GHEManager setters + write_input_file", "utilities.write_idf", "OutputManager.write_all_output_files",
+           "find_design (real on first use of an input text, replayed from a per-job memo afterwards)"]
+STUB_E2 = ["file system below the run directory: builtins.open / io.open / os.mkdir shim with injected errors",
+           "process exit: SystemExit / uncaught exception mapped to the interpreter's status "
+           "(cross-checked against a real subprocess on a sample)", "wall clock (virtual)"]
+
+
+def _e2_jobs(prop, seed, tier, n_jobs, n_inv, design_fraction, per_job=1, enumerate_first=0, **extra):
+    jobs = []
+    for s in range(0, n_jobs, per_job):
+        j = {"prop": prop, "seed": seed, "start": s, "count": min(per_job, n_jobs - s), "n_inv": n_inv,
+             "design_fraction": design_fraction, "tier": tier, "fidelity_every": 13}
+        if s < enumerate_first:
+            j["enumerate"] = True
+        j.update(extra)
+        jobs.append(j)
+    return jobs
+
+
+def spec_c18(tier):
+    if tier == "quick":
+        n_jobs, n_inv, enum = 64, 40, 12
+    else:
+        n_jobs, n_inv, enum = 1600, 60, 400
+    rule = ("one job = one base configuration written by the tool itself + a sequence of simulated command-line invocations "
+            "(flags x stored-input fault x output-I/O fault plan).  Fault *kinds* and (section,key) sites are enumerated "
+            "completely for the first `enumerated_jobs` base configurations (every key of every section x "
+            "{delete, wrong type, out of range, unknown enum}, section deleted / replaced by a scalar, loads 8759/8761/"
+            "non-numeric); values, byte offsets, n-th write and the base configuration are seeded.  Every invocation is "
+            "non-trivial (it runs the real CLI); distinct = distinct digests of a job's (argv, fault, status, files) log.")
+
+    def extra(c, counters, sets):
+        c["enumerated_jobs"] = enum
+        c["distinct_input_fault_sites"] = len(sets.get("fault_sites", ()))
+        c["io_fault_sites_hit"] = sorted(sets.get("io_fault_files", ()))
+        c["flags_x_verdict_x_status_reached"] = sorted(sets.get("flags_verdict_status", ()))
+        c["invocations"] = counters.get("invocations", 0)
+
+    return {
+        "level": "fault_enumeration",
+        "parts": [{"engine": "E2", "jobs": lambda seed: _e2_jobs("C18", seed, tier, n_jobs, n_inv, 0.3, enumerate_first=enum),
+                   "wall_cap": 900.0}],
+        "coverage": _generic_coverage(rule, REAL_E2, STUB_E2, extra),
+        "assumptions": [
+            "the tool's schema files are the specification of validity; the reference validator applies them with the five "
+            "case-insensitive names upper-cased",
+            "an uncaught exception ends a real process with status 1 (validated against real subprocesses on a sample)",
+            "exit 0 on a design run must leave six complete files (content-inspected, independent of fault bookkeeping)",
+        ],
+    }
+
+
+REAL_E1 = ["GHEManager (all setters, set_design, find_design, prepare_results, write_output_files)", "design.py", "domains.py",
+           "search_routines.py (all four classes)", "ground_heat_exchangers.py (GHE.simulate/size/compute_g_functions)",
+           "ground_loads.HybridLoad", "radial_numerical_borehole", "borehole_heat_exchangers", "gfunction.GFunction",
+           "rowwise.py", "output.OutputManager", "pygfunction (real on first use of an argument tuple)"]
+STUB_E1 = ["ghedesigner.gfunction.calculate_g_function: pure memo (frozen g-values replayed for repeated argument tuples) "
+           "and abort-injection point", "wall clock: ghedesigner.manager.time / ghedesigner.output.datetime -> virtual clock",
+           "file system for reports: scratch directory through builtins.open/io.open/os.mkdir (no faults in E1)"]
+E1_RULE = ("seeded plans: one configuration (all six methods, four pipe arrangements, both flow types, five fluids, load family "
+           "and magnitude steered towards the outcome classes) + a seeded operation history (build with permuted setters and "
+           "decoy values, find, redesign, abort-at-k-th-call then retry, unrelated design in between, other nominal height, "
+           "simulate HYBRID/HOURLY at in-/out-of-window heights, size, regenerate g-functions, report, clock jumps).  "
+           "Non-trivial = at least 3 operations; distinct = distinct SHA-256 of the event log "
+           "(op, argument digest, bit-exact outcome digest).")
+
+
+def _e1_extra(c, counters, sets):
+    c["abstract_states_visited"] = len(sets.get("abstract_states", ()))
+    c["state_op_transitions"] = len(sets.get("transitions", ()))
+    c["states"] = c["abstract_states_visited"]
+    c["transitions"] = c["state_op_transitions"]
+    c["distinct_history_shapes"] = len(sets.get("history_shapes", ()))
+    c["outcome_classes_reached"] = sorted(sets.get("outcome_classes", ()))
+    c["simulated_ground_loop_months"] = counters.get("simulated_ground_loop_months", 0)
+    c["virtual_clock_seconds"] = counters.get("virtual_clock_seconds", 0)
+    c["abstract_state_definition"] = ("(has_design, has_search, borehole-H class in {nominal,min,max,interior,out_of_window}, "
+                                      "times kind in {none,empty,hybrid,hourly}, interpolation table built, stored heights, "
+                                      "results prepared, last find aborted)")
+
+
+def _e1_part(prop, tier, quick_n, thorough_n, per_job=2, budget_quick=330, budget_thorough=3300, **extra):
+    n = quick_n if tier == "quick" else thorough_n
+
+    def jobs(seed):
+        js = _chunks(prop, seed, n, per_job, tier=tier, **extra)
+        return js
+
+    return {"engine": "E1", "jobs": jobs, "wall_cap": 600.0, "init": "sim.apisim:worker_init",
+            "budget_s": budget_quick if tier == "quick" else budget_thorough}
+
+
+def spec_c13(tier):
+    return {
+        "level": "exploration",
+        "parts": [_e1_part("C13", tier, 220, 4000)],
+        "coverage": _generic_coverage(E1_RULE + "  Oracle: after every find-like op the bit-exact fingerprint (field, height, all "
+                                      "temperatures, search log) equals fresh(cfg); after every simulate/size the result equals the "
+                                      "same call on a fresh GHE object for that field; untouched reports are byte-equal to a fresh "
+                                      "manager's (clock fields removed).", REAL_E1, STUB_E1, _e1_extra),
+        "assumptions": [
+            "bit equality is asserted between executions in one pinned environment (OPENBLAS/OMP threads = 1, PYTHONHASHSEED=0)",
+            "the fresh reference is computed in the same process (memoised per worker); process-global leaks that also affect "
+            "the reference are covered only by the cross-process determinism self-test",
+            "the fresh GHE reference is constructed at the same height as the object under test (its HybridLoad depends on it)",
+        ],
+    }
+
+
+def spec_c12(tier):
+    return {
+        "level": "exploration",
+        "parts": [_e1_part("C12", tier, 200, 3500, max_ops=4)],
+        "coverage": _generic_coverage(E1_RULE + "  Every history ends in a report; the oracle parses the written files and "
+                                      "re-simulates the same returned object at the reported height.", REAL_E1, STUB_E1, _e1_extra),
+        "assumptions": ["only HYBRID in-window operations are placed between find and report (the summary labels the run HYBRID)",
+                        "tolerance 1e-3 K (sizing tolerance); the text file additionally to its 3 printed decimals"],
+    }
+
+
+def spec_c19(tier):
+    return {
+        "level": "exploration",
+        "parts": [_e1_part("C19", tier, 200, 3500, max_ops=4)],
+        "coverage": _generic_coverage(E1_RULE + "  Per report: all 8760 calendar labels, the load echo, the bore-field table, the "
+                                      "g-function table against the live curve, every elapsed-time row against an independent "
+                                      "hours->months map.  'All elapsed times at sub-hour resolution' is reached only at the times "
+                                      "the hybrid scheme emits.", REAL_E1, STUB_E1, _e1_extra),
+        "assumptions": ["calendar reference: datetime arithmetic on the non-leap year 2019",
+                        "month boundaries belong to the month that ends there (hours_to_month(744) == 1.0)"],
+    }
+
+
+def spec_c01(tier):
+    return {
+        "level": "exploration",
+        "parts": [_e1_part("C01", tier, 200, 3500, max_ops=3)],
+        "coverage": _generic_coverage(E1_RULE + "  Post-condition monitor: every completed find without the escape message is "
+                                      "re-simulated on the returned object at the returned height.  Input coverage is only what the "
+                                      "workload generator's ranges give.", REAL_E1, STUB_E1, _e1_extra),
+        "assumptions": ["'escape' is recognised by the tool's own message 'configuration selected.' on stdout"],
+    }
+
+
+def spec_c17(tier):
+    n = 800 if tier == "quick" else 24_000
+    rule = ("seeded configurations over all six methods (RowWise with and without perimeter ratio), four pipe arrangements, "
+            "five fluids, optional cap / continue flag present or absent, setters in seeded order; one plan = save -> both "
+            "validators -> CLI loading path -> save again -> compare (+ real design on both managers for a seeded subset of the "
+            "cheap methods).  Every plan is non-trivial; distinct = distinct digest of the (file, verdict, reload) log.")
+
+    def extra(c, counters, sets):
+        c["variants_x_pipe_x_fluid_reached"] = len(sets.get("variants", ()))
+
+    return {
+        "level": "exploration",
+        "parts": [{"engine": "E2R", "jobs": lambda seed: _chunks("C17", seed, n, 10, tier=tier, design_fraction=0.1),
+                   "wall_cap": 900.0}],
+        "coverage": _generic_coverage(rule, ["GHEManager setters + write_input_file", "validate.py",
+                                             "_run_manager_from_cli_worker (JSON -> setters)", "geometry/media/simulation/design "
+                                             "to_input()", "find_design on both managers for the design subset"],
+                                      ["post-loading stages of the CLI worker (find_design/prepare_results/write_output_files) are "
+                                       "recording no-ops while the loaded manager is captured", "file system: shim over a scratch "
+                                       "directory"], extra),
+        "assumptions": ["designs compared to 1e-6 m in height and exact field (RowWise angles go degrees->radians->degrees)",
+                        "storage faults are exercised under C18, not here"],
+    }
+
+
+def _with_e1(base_spec_fn, prop, quick_n, thorough_n, **extra):
+    def f(tier):
+        sp = base_spec_fn(tier)
+        sp["parts"].append(_e1_part(prop, tier, quick_n, thorough_n, budget_quick=200, budget_thorough=1500, **extra))
+        inner = sp["coverage"]
+
+        def cov(batches, tier):
+            c = inner(batches, tier)
+            c["components_real"] = {"E3": REAL_E3, "E1": REAL_E1}
+            c["components_stubbed"] = {"E3": STUB_E3, "E1": STUB_E1}
+            return c
+
+        sp["coverage"] = cov
+        return sp
+
+    return f
+
+
+SPECS = {"C02": _with_e1(spec_c02, "C02", 100, 1500, max_ops=2), "C05": _with_e1(spec_c05, "C05", 100, 1500, max_ops=2),
+         "C20": _with_e1(spec_c20, "C20", 100, 1500, max_ops=2), "C18": spec_c18,
+         "C17": spec_c17, "C13": spec_c13, "C12": spec_c12, "C19": spec_c19, "C01": spec_c01}
